@@ -1972,7 +1972,7 @@ fn parse_week_day_number(s: &[u8]) -> Result<(WeekDay, &[u8])> {
         ));
     }
 
-    let num = s[0] - b'0';
+    let num = s[0].wrapping_sub(b'0');
     if (1..=7).contains(&num) {
         return Ok((WeekDay::from(num as usize), &s[1..]));
     }
